@@ -157,7 +157,7 @@ PROPS["C08"] = {
         {"bin": "hv", "args": ["c08"]},
         {"bin": "py", "fn": "c08_miri", "tag": "miri"},
     ],
-    "min": {"quick": {"scenario_runs": 800, "task_events_observed": 5000, "distinct_interleavings": 200, "lifecycle_scripts_seen": 8, "panic_subsets_of_4_tasks_seen": 16, "miri_scenario_runs": 60, "scenario_runs_with_monitor": 100, "monitor_events.overload": 50},
+    "min": {"quick": {"scenario_runs": 800, "task_events_observed": 5000, "distinct_interleavings": 200, "lifecycle_scripts_seen": 9, "panic_subsets_of_4_tasks_seen": 16, "miri_scenario_runs": 60, "scenario_runs_with_monitor": 100, "monitor_events.overload": 50},
             "thorough": {"scenario_runs": 15_000, "distinct_interleavings": 2000}},
     "assumptions": [],
     "level_text": "Many executions of the real ThreadPool (process per scenario under seeded failpoint delay plans; small scenarios additionally under Miri's seeded scheduler) are observed through a task event log and the process's thread table; the number of distinct interleavings actually seen is reported. This is sampling of schedules with a sound oracle, not the systematic preemption-bounded enumeration the property's quantifier names.",
